@@ -166,7 +166,13 @@ func replayLinearFrom(cfg *Config, root string, ops []string, judgeFrom int) ([]
 		for k, v := range parent[i] {
 			if nz(v) {
 				cl, disc := splitKey(k)
-				out = append(out, Finding{Clause: cl, Culprit: "root", Disc: disc, Detail: "non-zero drift " + v + " at root"})
+				culprit := "root"
+				if root == "R20" {
+					// the thousand ordinary blocks that BUILT this root are part of the judged history (no explorer
+					// phase starts from it; only linear chains do)
+					culprit = "long_idle_history"
+				}
+				out = append(out, Finding{Clause: cl, Culprit: culprit, Disc: disc, Detail: "non-zero drift " + v + " at root"})
 			}
 		}
 	}
